@@ -608,8 +608,8 @@ ASSUMPTIONS = ["exact arithmetic in all theorems; float32 evaluation bounded by 
 
 EPS = 2.0 ** -23
 UNIT = 1024
-C_DIH = 8.0
-C_ANG = 8.0
+C_DIH = 12.0
+C_ANG = 12.0
 NAMES = ["phi", "psi", "omega", "chi1", "chi2", "chi3", "chi4", "chi5"]
 
 
@@ -914,7 +914,7 @@ def run_geom(ctx, cases):
         elif bad:
             ctx.break_("correspondence:%s-model-vs-exact" % nm,
                        "Gallina observables (from the kernel text) differ from the exact integer formulas, e.g. %s -> expected %s" % lst[bad[0]])
-        notes["model_evaluations_%s" % nm] = len(lst)
+        notes["model_evaluations_%s" % nm] = notes.get("model_evaluations_%s" % nm, 0) + len(lst)
 
 
 # ------------------------------------------------------------------------------------------------
